@@ -65,6 +65,8 @@ type Transition struct {
 	latestHandlerIsEnter bool
 	latestHandlerIsFinal bool
 	latestHandlerToState string
+	// state of the latest final handler (FooState or FooEnd), empty otherwise
+	latestHandlerFinalState string
 
 	cacheTargetStates atomic.Pointer[S]
 	cacheStatesBefore atomic.Pointer[S]
@@ -229,6 +231,7 @@ func (t *Transition) CleanCache() {
 	t.cacheTargetStates.Store(nil)
 	t.cacheStatesBefore.Store(nil)
 	t.latestHandlerToState = ""
+	t.latestHandlerFinalState = ""
 	t.latestHandlerIsEnter = false
 	t.latestHandlerIsFinal = false
 	t.cacheClockBefore.Store(nil)
@@ -588,6 +591,7 @@ func (t *Transition) emitHandler(
 	from, to string, isFinal, isEnter bool, event string, args A,
 ) Result {
 	t.latestHandlerToState = to
+	t.latestHandlerFinalState = ""
 	ret, handlerCalled := t.Machine.handle(event, args, isFinal, isEnter, false)
 
 	if handlerCalled && t.Machine.semLogger.IsSteps() {
@@ -613,6 +617,7 @@ func (t *Transition) emitFinalEvents() Result {
 			handler = s + SuffixEnd
 			t.latestHandlerToState = ""
 		}
+		t.latestHandlerFinalState = s
 
 		ret, handlerCalled := t.Machine.handle(handler, t.Mutation.Args,
 			true, isEnter, false)
